@@ -4,7 +4,8 @@ set -u
 P="$1"; ID="$2"; TIER="${3:-quick}"
 cd /repo || exit 2
 if [ -n "$(git status --porcelain --untracked-files=no)" ]; then echo "/repo has uncommitted changes; refusing"; exit 2; fi
-trap 'git -C /repo checkout -- . ; git -C /repo clean -fdq crates >/dev/null 2>&1' EXIT
+EV=/verif/evidence/$ID.json; [ -f "$EV" ] && cp "$EV" /tmp/try_patch.$$.ev
+trap 'git -C /repo checkout -- . ; git -C /repo clean -fdq crates >/dev/null 2>&1; [ -f /tmp/try_patch.$$.ev ] && mv /tmp/try_patch.$$.ev "$EV"' EXIT
 git apply "$P" || { echo "patch does not apply"; exit 2; }
 cd /verif && ./check "$ID" "$TIER" 2>&1 | grep -E "^(VIOLATION|KNOWN-FINDING|MACHINERY|  signature|C[0-9]+ (quick|thorough))" | head -${LINES_MAX:-12}
 echo "exit=${PIPESTATUS[0]}"
